@@ -275,3 +275,18 @@ reg("C06", "c06",
     "only if all of the above holds at every point.",
     "go-git's object / ref writes and fetch are trusted atomic. 113+ crash points; identity and bug paths; entity API level.",
     "DESIGN.md section 4, C06")
+
+reg("C07", "c07",
+    "TLA+ spec Format.tla enumerated by TLC (mutation x position x local situation, with verdicts); every case served to a real "
+    "victim repository in isolated processes; byte-level fuzz outcomes validated by TLC",
+    "Format.tla names 48 structural mutations of bug packs (tree entries, JSON shapes, author, operation list, operation types and "
+    "fields, DAG shape, ref name) and 21 of identity versions, says which validity conjunct each breaks, and crosses them with "
+    "the position in the history and the five local situations (850 cases incl. unmutated controls that must be merged with the "
+    "right status). The harness builds each served history from real git objects in a victim repository, offers it through a "
+    "remote-tracking ref and requires: no crash, 'invalid' with every local ref untouched for invalid data (or, for the few "
+    "mutations that stay decodable, either that or an accepted entity that reads back and validates); then stores the same data "
+    "under a local ref and requires an error (not a panic) from the reader and a cache build that does not crash. Byte-level "
+    "mutations of pack and version blobs (seeded) are run the same way and judged by TLC with the rule that needs no knowledge of "
+    "validity.",
+    "Mutations stay inside well-formed git objects (go-git rejects others). Entity-level MergeAll; the cache build is used for "
+    "locally stored data.", "DESIGN.md section 4, C07")
